@@ -6,6 +6,7 @@ import (
 	"net"
 	"strconv"
 	"time"
+	"unsafe"
 
 	"github.com/cnotch/ipchub/av/format/rtp"
 	. "verifharness/hlib"
@@ -127,6 +128,10 @@ func runWire(c *Ctx, w wireCase) {
 		data []byte
 	}
 	var want []sent
+	// the published objects and a raw snapshot of each (every field, exported or not): the
+	// delivery side must treat the shared packet as immutable
+	var objs []*rtp.Packet
+	var snaps [][]byte
 	for i := 0; i < w.n; i++ {
 		k := []int{0, 0, 0, 2, 2, 1, 3}[rng.Intn(7)]
 		size := 12 + rng.Intn(40)
@@ -143,6 +148,8 @@ func runWire(c *Ctx, w wireCase) {
 				continue
 			}
 		}
+		objs = append(objs, p)
+		snaps = append(snaps, rawBytes(p))
 		fx.Stream.WriteRtpPacket(p)
 		subscribed := w.ach >= 0 || k < 2
 		if subscribed {
@@ -164,6 +171,14 @@ func runWire(c *Ctx, w wireCase) {
 		}
 	}
 	c.Eval(key, len(want) > 3)
+	defer func() {
+		for i, p := range objs {
+			if !bytes.Equal(rawBytes(p), snaps[i]) {
+				fail("wire-shared-packet-mutated", fmt.Sprintf("the published packet object %d was modified while it was being delivered (it is shared by all consumers)", i), "consumers copy the packet to the wire and never write to it")
+				return
+			}
+		}
+	}()
 	if w.flavour == "udp" {
 		// nothing else may arrive
 		for k := 0; k < 4; k++ {
@@ -260,4 +275,13 @@ func wireRuns(c *Ctx) {
 			runWire(c, w)
 		}
 	}
+}
+
+// rawBytes copies the in-memory representation of the packet struct (slice headers and all
+// scalar fields, exported or not)
+func rawBytes(p *rtp.Packet) []byte {
+	n := int(unsafe.Sizeof(*p))
+	b := make([]byte, n)
+	copy(b, (*[1 << 12]byte)(unsafe.Pointer(p))[:n:n])
+	return b
 }
